@@ -1651,6 +1651,12 @@ def eval_directives_case(ctx, c, rep):
             same("listed/" + name, withttl, zt, allow_directives=kw)
         same("unlisted", withttl, None, allow_directives=["$ORIGIN"])
         same("unlisted-generate", body + "$GENERATE 1-2 g$ 60 A 10.9.9.$\n", None, allow_directives=["$TTL", "$ORIGIN"])
+    # a quoted string is not a TTL or an origin
+    for name, line in (("quoted-ttl", '$TTL "300"\n'), ("quoted-origin", f'$ORIGIN "{O.to_text()}"\n'), ("ttl-no-argument", "$TTL\n"),
+                       ("ttl-extra-token", "$TTL 300 400\n"), ("origin-extra-token", f"$ORIGIN {O.to_text()} x\n")):
+        same("malformed/" + name, line + body, None)
+        ctx.corr(f"c09.read {opt_name(origin_labels)} {int(rel)} 0 {variant()['gfix']} {txt_hex(line + body)}",
+                 impl_read(origin_labels, rel, False, line + body)[0], c)
     gen = body + "$GENERATE 1-2 g$ 60 A 10.9.9.$\n"
     howg, zg = load(gen)
     if zg is not None:
